@@ -4,6 +4,15 @@ selftest/last_run.json (which checks catch which changes)."""
 import json, os, re
 HERE = os.path.dirname(os.path.dirname(os.path.abspath(__file__)))
 WHAT = {
+ 'S-C04-5': 'update_pin_info masks the enemy army to the king\'s lines once and returns early when that is empty: a knight check from FEN is lost (smothered mate reads Ongoing)',
+ 'S-C05-5': 'knight-check line made branch-free; in make_move it sits before the promotion is applied: e7e8=N+ leaves checkers empty',
+ 'S-C09-5': 'Zobrist::en_passant takes the square and derives the column as index / 8 (the rank): all files of a colour share one key',
+ 'S-C13-5': 'ChessMove::from_str takes `split_whitespace().next()`: leading white space is skipped, result is not a prefix of the input',
+ 'S-C16-5': 'ADJACENT_FILES generator compares `file == i.saturating_sub(1)`: file A is adjacent to itself',
+ 'S-C17-5': 'update_pin_info `break`s at the first slider with a clear line: sliders later in a1..h8 order are not classified',
+ 'S-C18-5': 'null_move rebuilt on a shared pass_turn helper that tests checkers AFTER the flip: never refused in check',
+ 'S-C19-5': 'power-of-two check rewritten as `size & size.wrapping_sub(1) != 0`: size 0 is accepted',
+ 'S-C20-5': 'Iterator::fold overridden with a shift walk `bits >>= skip + 1`: shift by 64 on the lone-h8 board',
  'S-C01-5': 'legal_ep_move early accept when not in check and neither vanishing pawn is in `pinned`: king and rook on the rank with only the two pawns between',
  'S-C02-5': 'both castle-rights updates skipped when the MOVER has no rights left: capturing the opponent\'s home-square rook keeps its right',
  'S-C03-5': 'update_pin_info adds knight/pawn checkers only if the slider scan found none: knight+slider double check from FEN loses the knight',
